@@ -678,7 +678,7 @@ def run_C05(ctx):
 
 
 SYNTAX_CONSTS = ("CONSTANT PathTable <- MCPathTable\nCONSTANT NameTable <- MCNameTable\nCONSTANT IdTable <- MCIdTable\n"
-                 "CONSTANT WordTable <- MCWordTable\n")
+                 "CONSTANT WordTable <- MCWordTable\nCONSTANT ByCps <- NoFast\n")
 vlib.TRACE_CFG["Trace_Parse"] = SYNTAX_CONSTS
 
 
